@@ -38,6 +38,7 @@ ERRORS = {
     "bad-size": ("lda.q 0x10", 4, "scan"),
     "bad-size-eol": ("   sta.", 7, "scan"),
     "bad-index": ("lda 0x10, q", 10, "scan"),
+    "index-register-missing-at-the-line-end": ("    lda 0x10,", 13, "scan"),
     "unterminated-string": (".ascii 'abc", 7, "scan"),
     "unterminated-string-db": ("  .db 'x", 6, "scan"),
     "unterminated-string-ending-in-a-backslash": (".ascii 'C:\\", 7, "scan"),
